@@ -64,6 +64,15 @@ func TestC16(t *testing.T) {
 		seen[v] = true
 		out.emit(tag, "gindex", []string{hx(v)}, guard(func() string { return gindexObs(v) }))
 	}
+	// the byte encodings belong to the caller: extend a few of them in place, then every value is
+	// encoded (again) below
+	for v := uint64(1); v < 300; v++ {
+		g := tree.Gindex64(v)
+		_ = append(g.LittleEndian(), 0xbb, 0xcc, 0xdd)
+		_ = append(g.BigEndian(), 0xbb, 0xcc, 0xdd)
+		la, _ := g.LeftAlignedBigEndian()
+		_ = append(la, 0xbb, 0xcc, 0xdd)
+	}
 	small := uint64(1) << 12
 	if thorough() {
 		small = 1 << 17
